@@ -86,9 +86,13 @@ def run(ch, prog, maxbuf):
                 f.cancel()
                 cancelled.add(i)
                 w.loop.drain()
-            if sock.blocked and ch.choose(2, "writable-between-writes") == 1:
-                sock.unblock()
-                w.pump()
+            if sock.blocked:
+                c = ch.choose(3, "writable-between-writes")
+                if c == 1:
+                    sock.unblock()
+                    w.pump()
+                elif c == 2:
+                    sock.unblock()      # the transport is writable again, but the loop has not delivered the event yet
         # finally the socket becomes writable until everything is flushed
         n = 0
         while True:
